@@ -12,7 +12,11 @@ import (
 
 type ISchema struct {
 	// types the map where key is the name of the type (or included Schema).
-	types    map[string]Type
+	types map[string]Type
+
+	// owners the named type in whose text an unnamed type was met (see
+	// AddUnnamedTypeOf). Unnamed types of the schema's own text have no entry.
+	owners   map[string]string
 	rootNode Node
 }
 
@@ -29,13 +33,30 @@ func (s ISchema) TypesList() map[string]Type {
 // TypeNames returns the names of all types in a stable (sorted) order.
 // Ranging over TypesList directly makes the outcome depend on map iteration
 // order as soon as more than one type has something to report.
+//
+// Unnamed types carry a process-wide sequence number, which tells the order
+// inside one text but, between texts, only which of them was loaded first.
+// They are therefore ordered by the name of the type they belong to first (the
+// schema's own ones come first), so that the order does not depend on the order
+// in which the types were loaded or registered.
 func (s ISchema) TypeNames() []string {
 	names := make([]string, 0, len(s.types))
 	for name := range s.types {
 		names = append(names, name)
 	}
-	sort.Strings(names)
+	sort.Slice(names, func(i, j int) bool {
+		a, b := names[i], names[j]
+		ua, ub := isUnnamedTypeName(a), isUnnamedTypeName(b)
+		if ua && ub && s.owners[a] != s.owners[b] {
+			return s.owners[a] < s.owners[b]
+		}
+		return a < b
+	})
 	return names
+}
+
+func isUnnamedTypeName(name string) bool {
+	return len(name) > 0 && name[0] == '#'
 }
 
 // MustType returns *ISchema or panic if not found.
@@ -90,6 +111,22 @@ func (s *ISchema) addType(name string, schema *ISchema, rootFile *fs.File, begin
 
 func (s *ISchema) AddType(n string, t Type) {
 	s.types[n] = t
+}
+
+// AddUnnamedTypeOf adds the unnamed TYPE n that was met in the text of the
+// named TYPE owner.
+func (s *ISchema) AddUnnamedTypeOf(owner, n string, t Type) {
+	s.types[n] = t
+	if isUnnamedTypeName(owner) {
+		// An unnamed type inside an unnamed type belongs to the same text.
+		owner = s.owners[owner]
+	}
+	if isUnnamedTypeName(n) && owner != "" {
+		if s.owners == nil {
+			s.owners = make(map[string]string, 5)
+		}
+		s.owners[n] = owner
+	}
 }
 
 func (s *ISchema) SetRootNode(node Node) {
